@@ -87,8 +87,10 @@ func anchoredAtTop(c Case, a Arg) bool {
 }
 
 type Arg struct {
-	Mode   string   `json:"mode"` // "pattern" | "filename"
-	Text   string   `json:"text"` // argument as typed, relative to the invocation directory
+	Mode   string   `json:"mode"`               // "pattern" | "filename"
+	Text   string   `json:"text"`               // argument as typed, relative to the invocation directory
+	Typed  string   `json:"typed,omitempty"`    // what is put on the command line when it differs from Text (argument spelling)
+	Spell  string   `json:"spelling,omitempty"` // name of the spelling, "" = as Text
 	Hazard string   `json:"hazard,omitempty"`
 	Feats  []string `json:"features"`
 	Own    string   `json:"own_line,omitempty"` // pre-existing line with the same pattern text: k1-text | k2-lockable | k3-foreign-filter (file of the invocation directory), parent-* (top-level file while invoked from a sub-directory); parent-covers[-lockable]: the top-level file holds the complete LFS line for <invocation dir>/<pattern>
@@ -521,6 +523,11 @@ func filenameHasGlob(a Arg) bool {
 
 // featClass: short, stable description used in class names.
 func featClass(a Arg) string {
+	if a.Spell != "" {
+		b := a
+		b.Spell = ""
+		return featClass(b) + "+typed-" + a.Spell
+	}
 	if a.Hazard != "" {
 		return a.Hazard
 	}
@@ -986,6 +993,61 @@ var kindTable = []string{
 //	repeat-pairs        : op1 A; op1 A; op2 A; op2 A with op1 != op2 from {track, --lockable, --not-lockable}
 const focusBase = 1 << 20
 
+// Argument spelling: the same argument written another, equivalent way on the command line.
+// Arg.Text stays the normalised argument (everything in the model, the denotation in the twin
+// repository, the universe and the coordinates are computed from it, as before); Arg.Typed is
+// what git-lfs is given.
+//
+// What the unchanged tree does with each spelling was probed first (track, the same track
+// again, check-attr, untrack with the same spelling; pattern mode and --filename; top level
+// and sub-directory):
+//
+//	./P          normalised: line "P ...", second run "already supported", untrack ./P removes it   -> generated, judged
+//	././P        writes "./P ..."        (only ONE leading ./ is stripped); Git never matches it     -> not generated
+//	dir/         writes "dir/ ..."       (Git: a trailing slash never matches in attributes)         -> not generated
+//	a//b.bin     writes "a//b.bin ..."   Git never matches it                                       -> not generated
+//	dir/../x.bin writes it verbatim      Git never matches it (same for ../x.bin, a/./b.bin)        -> not generated
+//
+// The spellings that the unchanged tree does not normalise fail the property there (exit 0,
+// "Tracking", filter unspecified) and were reported to the lead; spell() knows them, they stay
+// out of spellingsJudged until a decision is made.
+//
+// Which arguments: every case whose index is 2 modulo 5 (whatever its kind, the appended
+// blocks included); with one argument it is spelled, with several every second one is (so
+// spelled and plain arguments meet in one command). Not spelled: arguments with a hazard
+// coordinate and patterns with a leading '/' (".//x" is yet another spelling).
+var spellingsJudged = []string{"dot-slash"}
+
+func spell(kind, text string) string {
+	switch kind {
+	case "dot-slash":
+		return "./" + text
+	case "dot-slash-twice":
+		return "././" + text
+	case "doubled-slash":
+		if i := strings.Index(text, "/"); i > 0 {
+			return text[:i] + "/" + text[i:]
+		}
+	case "dir-dotdot":
+		return "zz/../" + text
+	case "mid-dot":
+		if i := strings.Index(text, "/"); i > 0 {
+			return text[:i] + "/." + text[i:]
+		}
+	}
+	return text
+}
+
+// spellTrigger: Sig.Trigger of a violation on a spelled argument without another intrinsic coordinate.
+func spellTrigger(kind string) string { return "arg-spelling/" + kind }
+
+func typed(a Arg) string {
+	if a.Typed != "" {
+		return a.Typed
+	}
+	return a.Text
+}
+
 // Multi-argument cases (index >= multiBase, m = index - multiBase): 3-4 arguments of one mode
 // (patterns, or every 4th group --filename names), brought into the states
 //
@@ -1352,6 +1414,19 @@ func genCase(seed int64, idx int) Case {
 			}
 		}
 		c.Args = []Arg{a}
+	}
+	// ---- argument spelling ---------------------------------------------------------
+	if idx%5 == 2 {
+		for i := range c.Args {
+			a := &c.Args[i]
+			if a.Hazard != "" || strings.HasPrefix(a.Text, "/") || (len(c.Args) > 1 && (idx/5+i)%2 != 0) {
+				continue
+			}
+			kind := spellingsJudged[(idx/5)%len(spellingsJudged)]
+			if t := spell(kind, a.Text); t != a.Text {
+				a.Typed, a.Spell = t, kind
+			}
+		}
 	}
 	// ---- how the working directory is reached: one case in three of the original list (3 is
 	// coprime to len(kindTable)), every focus case according to its index. No random draw is
